@@ -267,7 +267,7 @@ def run(chk):
     for files, st in corpus:
         add_case(chk, cases, rng, files, st, 3, "corpus")
     exhaustive(chk, cases, rng, 2 if quick else 3, 3 if quick else 4)
-    n = 110 if quick else 1500
+    n = 80 if quick else 1500
     for i in range(n):
         # every fifth project is drawn in the loose mode (ambiguous references, deferred and inherited
         # bindings): model = implementation only; the others carry the generator's declared relation
@@ -433,9 +433,13 @@ def finish(chk):
                    "ford.graphs by comparing every graph of generated projects",
         trusted_base=["Coq 8.16.1 kernel (vm_compute evaluates the model on the cases and closes the witnesses)",
                       "harness/impl/graphs.py (reads the relation from FORD's objects, parses DOT sources)",
-                      "harness/gen/graphs.py (generator)", "hand-written model Out/Graph.v",
+                      "harness/gen/graphs.py (generator; [declared] states the relation of the generated text "
+                      "under the scoping rules of the generated subset and is the Spec side of the judge)",
+                      "hand-written model Out/Graph.v",
                       "graphviz dot only for the end-to-end runs"],
-        rule="one case = one generated project x limit settings; distinct = distinct (files, settings) with at "
+        rule="Spec side = relation declared by the generator (strict projects, 4 of 5) / relation read from FORD's "
+             "objects (loose, hand-written, exhaustive layers); visibility flags are taken from FORD; "
+             "one case = one generated project x limit settings; distinct = distinct (files, settings) with at "
              "least one edge in some graph; every graph object FORD builds is compared (nodes, edges with style "
              "and label, truncated, hop_nodes, node labels)",
         checker_cmd="make theories/Props/C13.vo && coqc theories/Props/C13.v (Print Assumptions)",
